@@ -4,10 +4,6 @@ import json, os
 V = os.path.dirname(os.path.dirname(os.path.abspath(__file__)))
 
 NA = {
- "C02": "exact floor(n/d) and remainder for all operands rest on the Moeller-Granlund reciprocal and Knuth add-back correctness: relational arithmetic facts that no dataflow/typestate/shape rule captures; the forwarding of operator/trait forms is decided under C15",
- "C03": "exactness of schoolbook/Karatsuba recombination (carry chains, sign trick) is an arithmetic identity over all limb values, not a property of code shape",
- "C05": "agreement of shifts/bit scans with the binary expansion for every shift amount is a value relation (ladder correctness for non-power-of-two widths is arithmetic)",
- "C14": "n=q*d+r with the stated sign conventions for all sign combinations and MIN/-1 is arithmetic; the wrappers' forwarding is decided under C15",
  "C17": "canonical numerals, exact parse and the 2^BITS overflow boundary depend on digit-batching arithmetic and ilog values; the one shape-level clause (push_limb overflow flag is consumed) is decided under C16",
  "C20": "floor-sqrt for every x depends on Hast's iteration bound and Newton convergence (numerical)",
 }
